@@ -15,6 +15,10 @@ from .inline import inline_call
 GATE_FNS = ["get_message", "get_downlink_format", "get_icao"]
 
 
+class GateBypassed(Broken):
+    """the reader does not call the analysed line gate `get_message` at all (it accepts lines some other way)"""
+
+
 def _calls_to(body, suffix):
     out = []
     for bb, t in body.calls():
@@ -53,6 +57,8 @@ class Region:
             if _calls_to(b, "get_message"):
                 holders.append(b)
         holders = [b for b in holders if not b.name.endswith("get_message")]
+        if not holders:
+            raise GateBypassed("line-loop anchor: get_message is called from 0 bodies: the reader accepts lines without the public gate")
         if len(holders) != 1:
             raise Broken("line-loop anchor: get_message is called from %d bodies (%s)" % (len(holders), [b.name for b in holders]))
         cur = holders[0]
@@ -104,6 +110,30 @@ class Region:
                 self.inlined.append(cands[0][1].name)
                 cur = inline_call(cur, cands[0][0], cands[0][1])
         self._finish(cur)
+
+    def inline_calls_with_arg(self, field, max_n=4):
+        """inline calls in the region that are handed (a reference to) Args.<field>"""
+        from .mirq import expr, show
+        for _ in range(max_n):
+            cand = None
+            for bb in sorted(self.blocks):
+                t = self.proc.blocks[bb]["term"]
+                if t["k"] != "call" or not t["callee"].get("local"):
+                    continue
+                cb = self.facts.bodies.get(callee_name(t))
+                if cb is None or cb.name.split("::")[-1] in GATE_FNS or cb.name == self.proc.name or cb.kind == "closure":
+                    continue
+                for a in t["args"]:
+                    e = expr(self.du, a)
+                    if e[0] == "arg" and e[2] and e[2][-1] == field:
+                        cand = (bb, cb)
+                if cand:
+                    break
+            if cand is None:
+                return self
+            self.inlined.append(cand[1].name)
+            self._finish(inline_call(self.proc, cand[0], cand[1]))
+        return self
 
     def inline_calls(self, pred, max_n=4):
         """inline (in place) calls inside the per-line region to crate-local helpers whose body satisfies `pred`
